@@ -213,7 +213,8 @@ impl Registry {
                         write!(output, "on {} ", name.node.on.node)?;
                         self.types.get(name.node.on.node.as_str())
                     } else {
-                        None
+                        // no type condition: the fragment applies to the enclosing type
+                        parent_type
                     };
                     self.stringify_selection_set(
                         output,
